@@ -17,7 +17,7 @@ func init() {
 	register(&Prop{
 		ID:         "C10",
 		Title:      "Attribute values survive a write/read round trip unchanged",
-		Decided:    "every conversion on the write/read path is total over the ten attribute types and discriminates by presence, not by emptiness: (R1) the v2 SDK→internal conversion has a case for every implementer of the SDK's AttributeValue union (enumerated from the SDK package through go/types) and maps member X to field X; (R2) the v2 internal→SDK conversion and the interpreter's MapToObject have a branch per field of types.Item whose presence test is `F != nil`, never `len(F) != 0` (an empty list, map or binary is a value; for the three set types emptiness tests are accepted because DynamoDB has no empty sets); (R3) the four v1 conversions set all ten fields, each from the same-named source field; (R4) each interpreter object's ToDynamoDB sets exactly the field named like the type tag its Type() returns; (R5) the item-copy helpers and the interpreter's working copies copy every entry unconditionally; (R6) every S and N text stored into any of the three representations, in either direction of either client, comes from the same-named slot through pointer copies only – no call that could trim, format or parse it (the value-origin tracer looks into package-local helpers and treats only the SDK pointer helpers as transparent); (R7) the internal representation encodes the type in which field is non-nil: in every data object's ToDynamoDB and in every member case of the SDK v2 → internal conversions the type-carrying field is provably non-nil (must-non-nil analysis over make/literal/append/phis/helper returns/field invariants), also for the empty string, binary, list and map (sets cannot be empty and are left out); (R8) the key derivation is lossless (= C01.R8): an item written under one number key is not silently replaced by a write to a different number; (R9) the value read back is the value that was written only if neither the stored value nor an earlier read result shares memory with a buffer somebody else can still change: every reference-typed component of every conversion result is owned by the result (= C14.R1); (R10) in the attribute→object conversion the object built under the presence test of field F carries the tag F (case chains and (predicate, constructor) tables alike) – with R4 (an object of tag F is written back as field F) a value keeps its type through the expression engine.",
+		Decided:    "every conversion on the write/read path is total over the ten attribute types and discriminates by presence, not by emptiness: (R1) the v2 SDK→internal conversion has a case for every implementer of the SDK's AttributeValue union (enumerated from the SDK package through go/types) and maps member X to field X; (R2) the v2 internal→SDK conversion and the interpreter's MapToObject have a branch per field of types.Item whose presence test is `F != nil`, never `len(F) != 0` (an empty list, map or binary is a value; for the three set types emptiness tests are accepted because DynamoDB has no empty sets); (R3) the four v1 conversions set all ten fields, each from the same-named source field; (R4) each interpreter object's ToDynamoDB sets exactly the field named like the type tag its Type() returns; (R5) the item-copy helpers and the interpreter's working copies copy every entry unconditionally; (R6) every S and N text stored into any of the three representations, in either direction of either client, comes from the same-named slot through pointer copies only – no call that could trim, format or parse it (the value-origin tracer looks into package-local helpers and treats only the SDK pointer helpers as transparent); (R7) the internal representation encodes the type in which field is non-nil: in every data object's ToDynamoDB and in every member case of the SDK v2 → internal conversions the type-carrying field is provably non-nil (must-non-nil analysis over make/literal/append/phis/helper returns/field invariants), also for the empty string, binary, list and map (sets cannot be empty and are left out); (R8) the key derivation is lossless (= C01.R8): an item written under one number key is not silently replaced by a write to a different number; (R9) the value read back is the value that was written only if neither the stored value nor an earlier read result shares memory with a buffer somebody else can still change: every reference-typed component of every conversion result is owned by the result (= C14.R1); (R10) in the attribute→object conversion the object built under the presence test of field F carries the tag F (case chains and (predicate, constructor) tables alike) – with R4 (an object of tag F is written back as field F) a value keeps its type through the expression engine; (R11) every container conversion / copy helper of the adapters returns nil only under arg == nil: an empty map, list, binary or set stays present; (R12) a write that is rejected has not replaced the stored value (= C08.R1).",
 		NotDecided: "numeric notation and precision (C12), set/element equality, nesting depth, and fidelity of values inside each branch (value-level).",
 		Rules: []RuleDef{
 			{ID: "R1", Desc: "v2 SDK→internal: exhaustive over the SDK union, member X ↦ field X (T-TABLE)", Run: c10R1},
@@ -30,6 +30,8 @@ func init() {
 			{ID: "R8", Desc: "a written item is not replaced by a write to another key: lossless key derivation (= C01.R8)", Run: aliasRule("R8", c01R8, nil)},
 			{ID: "R10", Desc: "attribute value -> object: under the presence test of field F the object built is the one whose Type()/ToDynamoDB is F (with R4: a value keeps its type through a read/write round trip) (T-GUARD)", Run: c10R10},
 			{ID: "R9", Desc: "what is stored and what is handed out are copies: reference components of every conversion are owned by the result (= C14.R1)", Run: aliasRule("R9", c14R1, nil)},
+			{ID: "R11", Desc: "container conversions and copy helpers of the adapters answer nil only for a nil argument, never for an empty one (presence is nil-ness) (T-GUARD)", Run: c10R11},
+			{ID: "R12", Desc: "what a read returns is what the last SUCCESSFUL write stored: a rejected write leaves the stored value untouched (= C08.R1)", Run: aliasRule("R12", c08R1, nil)},
 		},
 	})
 }
@@ -849,4 +851,95 @@ func fnSet(fs []*ssa.Function) map[*ssa.Function]bool {
 		m[f] = true
 	}
 	return m
+}
+
+// c10R11: presence is carried by nil-ness. Every container conversion and copy helper of the adapters (maps, lists,
+// byte slices, sets) may answer nil only for a nil argument: a `return nil` decided by len(arg) == 0 turns an EMPTY map,
+// list, binary or set into an absent one – the attribute value has no type left (all ten fields nil), it converts to no
+// object (the evaluator rejects it) or reads back as NULL.
+func c10R11(e *Engine) {
+	n := 0
+	for _, role := range clientRoles {
+		seen := map[*ssa.Function]bool{}
+		var fns []*ssa.Function
+		for _, f := range e.attrConversions() {
+			if e.fnRole(f) != role {
+				continue
+			}
+			for g := range e.reach(f) {
+				if e.fnRole(g) == role && !seen[g] && g.Parent() == nil {
+					seen[g] = true
+					fns = append(fns, g)
+				}
+			}
+		}
+		sort.Slice(fns, func(i, j int) bool { return e.fname(fns[i]) < e.fname(fns[j]) })
+		for _, fn := range fns {
+			if len(fn.Params) != 1 || fn.Signature.Results().Len() != 1 {
+				continue
+			}
+			p := fn.Params[0]
+			switch p.Type().Underlying().(type) {
+			case *types.Map, *types.Slice:
+			default:
+				continue
+			}
+			switch fn.Signature.Results().At(0).Type().Underlying().(type) {
+			case *types.Map, *types.Slice:
+			default:
+				continue
+			}
+			// only conversions applied to a MEMBER of an attribute value (attr.M, attr.L, item.BS …): for the top-level maps
+			// of a request an empty map and a nil one mean the same
+			onMember := false
+			for _, c := range e.callersOf(fn) {
+				if len(c.Common().Args) != 1 {
+					continue
+				}
+				if f, base := loadedFieldDeep(c.Common().Args[0]); f != nil && base != nil {
+					switch f.Name() {
+					case "M", "L", "B", "BS", "NS", "SS", "Value":
+						if isAttrStructType(base.Type()) || strings.Contains(typeName(base.Type()), "AttributeValueMember") {
+							onMember = true
+						}
+					}
+				}
+			}
+			if !onMember {
+				continue
+			}
+			for _, r := range returnsOf(fn) {
+				if !isNilConst(retVals(r)[0]) {
+					continue
+				}
+				n++
+				byNil, byLen := false, false
+				for _, cd := range condsAt(r.Block()) {
+					cd = normCond(cd)
+					if v, nonNilOnTrue, isNil := nilTest(cd.V); isNil && strip(v) == ssa.Value(p) && cd.Val != nonNilOnTrue {
+						byNil = true
+					}
+					if b, ok := cd.V.(*ssa.BinOp); ok {
+						if l, isLen := lenOf(b.X); isLen && strip(l) == ssa.Value(p) {
+							if k, isK := constInt(b.Y); isK && k == 0 && ((b.Op == token.EQL && cd.Val) || (b.Op == token.NEQ && !cd.Val) || (b.Op == token.GTR && !cd.Val)) {
+								byLen = true
+							}
+						}
+					}
+				}
+				construct := e.fname(fn) + ":nil-only-for-nil"
+				switch {
+				case byLen && !byNil:
+					e.fail("R11", construct, e.ipos(r), "the conversion answers nil for an EMPTY argument (len == 0), not only for a nil one: an empty map, list, binary or set becomes an absent one and the attribute loses its type")
+				case byNil:
+					e.pass("R11", construct, e.ipos(r), "nil is returned only for a nil argument")
+				default:
+					e.ob("R11", construct, e.ipos(r), Pass, false, "a nil result not decided by the argument's nil-ness or length")
+				}
+			}
+		}
+	}
+	if n < 4 {
+		e.fail("R11", "count:R11", "-", "only %d nil-returning container conversions found", n)
+	}
 }
